@@ -9,7 +9,9 @@
 //!   drop P k                   remove the first k elements of proof P    -> `len <n>`
 //! leaf data ids >= 1_000_000 are 32-byte blobs interned by the harness (random digests / the bytes of an inner node
 //! of a tree: to the model they are just further leaf ids, distinct from every node - collision freedom).
-//! refs:  `R T` root of tree T, `Q T i l` element l of T.create_proof(i), `Z k` junk bytes.
+//! refs:  `R T` root of tree T, `Q T i l` element l of T.create_proof(i), `Z k` junk bytes (k < 1000: random bytes;
+//! k >= 1000: bytes derived by the harness from a hash of the case, e.g. a root with the same mask XORed into two or
+//! four of its 8-byte words - to the model just further junk, interned injectively on the 32 bytes).
 use ag_harness::*;
 use alpenglow::crypto::Hash;
 use alpenglow::crypto::merkle::{DoubleMerkleProof, DoubleMerkleRoot, DoubleMerkleTree, PlainMerkleTree, SliceRoot};
@@ -33,6 +35,35 @@ struct Ctx {
     mute: bool,
     /// interned 32-byte leaf data (ids `BLOB_BASE + k`, k in order of first use within the case)
     blobs: Vec<Vec<u8>>,
+    /// interned derived hashes (refs `Z (DERIVED_BASE + k)`), in order of first use within the case
+    derived: Vec<Hash>,
+}
+
+const DERIVED_BASE: usize = 1000;
+
+fn hbytes(h: &Hash) -> Vec<u8> {
+    let b: &[u8] = h.as_ref();
+    b.to_vec()
+}
+
+/// `bytes` with the same non-zero mask XORed into `nwords` distinct 8-byte words (same in-word positions): a change that a
+/// comparison which folds word differences together (xor / sum of the words, a checksum of the bytes) does not see
+fn word_xor(bytes: &[u8], nwords: usize, rng: &mut Rng) -> Vec<u8> {
+    assert!(bytes.len() == 32 && (1..=4).contains(&nwords));
+    let mut mask = [0u8; 8];
+    match rng.below(4) {
+        0 => mask[rng.below(8) as usize] = 1 << rng.below(8),
+        1 => mask[rng.below(8) as usize] = 1 + rng.below(255) as u8,
+        2 => { mask[rng.below(8) as usize] = 1 + rng.below(255) as u8; mask[rng.below(8) as usize] |= 1 << rng.below(8); }
+        _ => { mask.copy_from_slice(&rng.bytes(8)); mask[0] |= 1; }
+    }
+    let mut ws = [0usize, 1, 2, 3];
+    rng.shuffle(&mut ws);
+    let mut out = bytes.to_vec();
+    for &w in &ws[..nwords] {
+        for (o, m) in mask.iter().enumerate() { out[8 * w + o] ^= m; }
+    }
+    out
 }
 
 /// the `EMPTY_ROOTS` table of `src/crypto/merkle.rs` (private constants), parsed from the working tree
@@ -83,7 +114,37 @@ impl Ctx {
         self.trees.clear();
         self.proofs.clear();
         self.blobs.clear();
+        self.derived.clear();
         self.class = 0;
+    }
+    /// `==` of `Hash` is equality of the 32 bytes (the verifiers compare the derived root with the claimed one through it)
+    fn hash_eq_is_bytewise(&mut self, a: &Hash, b: &Hash, how: &str) {
+        let (ba, bb) = (hbytes(a), hbytes(b));
+        let (eq, ne) = (a == b, a != b);
+        self.rec.count("hash-eq-pairs");
+        self.rec.oracle(eq == (ba == bb) && ne != eq, "hash-equality-not-bytewise", || format!("Hash a == b is {eq}, a != b is {ne}, but the bytes are {} ({how}): a = {}, b = {}", if ba == bb { "equal" } else { "different" }, hex(&ba), hex(&bb)));
+    }
+    /// ref of the hash with the given bytes as "junk" (`Z k`, k >= DERIVED_BASE; equal bytes get the same k)
+    fn derived_ref(&mut self, bytes: &[u8]) -> Ref {
+        let k = match self.derived.iter().position(|h| hbytes(h) == bytes) {
+            Some(k) => k,
+            None => { self.derived.push(wincode::deserialize::<Hash>(bytes).expect("32 bytes are a Hash")); self.derived.len() - 1 }
+        };
+        Ref::Z(DERIVED_BASE + k)
+    }
+    /// the hash `r` refers to with one mask XORed into `nwords` of its 8-byte words
+    fn word_xor_ref(&mut self, r: &Ref, nwords: usize, rng: &mut Rng) -> Ref {
+        let (_, h) = self.resolve(r, rng);
+        let b = word_xor(&hbytes(&h), nwords, rng);
+        let m: Hash = wincode::deserialize(&b).expect("32 bytes are a Hash");
+        self.hash_eq_is_bytewise(&h, &m, &format!("same mask XORed into {nwords} words"));
+        self.hash_eq_is_bytewise(&m, &m.clone(), "a hash and its clone");
+        self.derived_ref(&b)
+    }
+    /// a 32-byte leaf with one mask XORed into `nwords` of its 8-byte words, as a further leaf
+    fn word_xor_blob(&mut self, d: u64, nwords: usize, rng: &mut Rng) -> u64 {
+        let b = word_xor(&self.data(d), nwords, rng);
+        self.blob(&b)
     }
     /// value of the inner node `k` levels above leaf `i` of tree `t` (k = height: the root), as leaf data
     fn inner_node_blob(&mut self, t: usize, i: usize, k: usize) -> u64 {
@@ -118,6 +179,7 @@ impl Ctx {
         match r {
             Ref::R(t) => (format!("R {t}"), self.trees[*t].0.get_root()),
             Ref::Q(t, i, l) => (format!("Q {t} {i} {l}"), self.trees[*t].0.create_proof(*i)[*l].clone()),
+            Ref::Z(k) if *k >= DERIVED_BASE => (format!("Z {k}"), self.derived[*k - DERIVED_BASE].clone()),
             Ref::Z(k) => (format!("Z {k}"), self.junk(*k, rng)),
             Ref::E(k) => (format!("E {k}"), self.empty[*k].clone()),
             Ref::D(d, i, p) => (format!("D {d} {i} {p}"), PlainMerkleTree::derive_root(&self.data(*d), *i as usize, &self.proofs[*p].clone().into())),
@@ -221,11 +283,15 @@ fn leaves(n: usize, base: u64, empties: &[usize]) -> Vec<u64> {
     (0..n).map(|j| if empties.contains(&j) { 0 } else { base + j as u64 }).collect()
 }
 
+fn hex(b: &[u8]) -> String {
+    b.iter().map(|x| format!("{x:02x}")).collect()
+}
+
 fn main() {
     let args = Args::parse();
     quiet_panics();
     let mut rng = Rng::new(args.seed);
-    let mut cx = Ctx { rec: Recorder::new(), trees: vec![], proofs: vec![], junk: vec![], empty: empty_roots(), class: 0, mute: false, blobs: vec![] };
+    let mut cx = Ctx { rec: Recorder::new(), trees: vec![], proofs: vec![], junk: vec![], empty: empty_roots(), class: 0, mute: false, blobs: vec![], derived: vec![] };
 
     let sizes: Vec<usize> = if args.thorough {
         let mut v: Vec<usize> = (1..=1024).collect();
@@ -299,7 +365,24 @@ fn main() {
             cx.check(false, 0, i as u64, &Ref::R(t), p0, Some(false), "wrong-leaf-rejected", &mut rng);
             cx.check(false, d, i as u64, &Ref::R(t2), p0, Some(false), "wrong-root-rejected", &mut rng);
             cx.check(false, d, i as u64, &Ref::Z(rng.below(4) as usize), p0, Some(false), "wrong-root-rejected", &mut rng);
+            // the root (and below: proof elements) changed in 2 / 4 (and 1 / 3) of its 8-byte words by the same mask
+            let plast = if i == n - 1 { p0 } else { cx.proof(t, n - 1) };
+            let dlast = cx.trees[t].1[n - 1];
+            for nw in [2usize, 4, 2, 1 + rng.below(4) as usize] {
+                let r = cx.word_xor_ref(&Ref::R(t), nw, &mut rng);
+                cx.check(false, d, i as u64, &r, p0, Some(false), "word-xor-root-rejected", &mut rng);
+                cx.check(true, dlast, n as u64 - 1, &r, plast, Some(false), "word-xor-root-rejected", &mut rng);
+            }
             let len = cx.proofs[p0].len();
+            for nw in [2usize, 4] {
+                if len == 0 { break; }
+                let j = rng.below(len as u64) as usize;
+                let r = cx.word_xor_ref(&Ref::Q(t, i, j), nw, &mut rng);
+                let p = cx.copy(p0);
+                cx.set(p, j, &r, &mut rng);
+                cx.check(false, d, i as u64, &Ref::R(t), p, Some(false), "word-xor-element-rejected", &mut rng);
+                cx.check(true, d, i as u64, &Ref::R(t), p, Some(false), "word-xor-element-rejected", &mut rng);
+            }
             // every single element replaced
             let els: Vec<usize> = if len <= 6 || args.thorough { (0..len).collect() } else { vec![0, len / 2, len - 1] };
             for j in els {
@@ -311,7 +394,8 @@ fn main() {
                 cx.set(p, j, &r, &mut rng);
                 // the replacement may be the very same hash (two trees share their empty-subtree roots): then the
                 // proof is unchanged and must of course still verify — only the model comparison applies
-                let changed = cx.proofs[p] != cx.proofs[p0];
+                let changed = hbytes(&cx.proofs[p][j]) != hbytes(&cx.proofs[p0][j]);
+                { let (a, b) = (cx.proofs[p][j].clone(), cx.proofs[p0][j].clone()); cx.hash_eq_is_bytewise(&a, &b, "replaced proof element"); }
                 if !changed { cx.rec.count("corruption:replacement-identical"); }
                 let exp = if changed { Some(false) } else { None };
                 cx.check(false, d, i as u64, &Ref::R(t), p, exp, "corrupt-element-rejected", &mut rng);
@@ -415,6 +499,29 @@ fn main() {
             let j = (i + 1 + rng.below(n as u64 - 1) as usize) % n;
             cx.check(false, lv[j], i as u64, &Ref::R(t), p, Some(false), "wrong-leaf-rejected", &mut rng);
             cx.check(false, lv[i], j as u64, &Ref::R(t), p, Some(false), "wrong-index-rejected", &mut rng);
+        }
+        // 32-byte leaf / root / proof element with the same mask XORed into 2 or 4 of the 8-byte words (through
+        // DoubleMerkleTree as well: its leaves are hashes themselves)
+        {
+            let ri = rng.below(n as u64) as usize;
+            let i = *rng.pick(&[0, n - 1, ri]);
+            let p = cx.proof(t, i);
+            for nw in [2usize, 4, 1 + rng.below(4) as usize] {
+                let lx = cx.word_xor_blob(lv[i], nw, &mut rng);
+                cx.check(false, lx, i as u64, &Ref::R(t), p, Some(false), "word-xor-leaf-rejected", &mut rng);
+                cx.check(true, lx, i as u64, &Ref::R(t), p, Some(false), "word-xor-leaf-rejected", &mut rng);
+                let r = cx.word_xor_ref(&Ref::R(t), nw, &mut rng);
+                cx.check(false, lv[i], i as u64, &r, p, Some(false), "word-xor-root-rejected", &mut rng);
+                cx.check(true, lv[i], i as u64, &r, p, Some(false), "word-xor-root-rejected", &mut rng);
+                if h > 0 {
+                    let j = rng.below(h as u64) as usize;
+                    let r = cx.word_xor_ref(&Ref::Q(t, i, j), nw, &mut rng);
+                    let q = cx.copy(p);
+                    cx.set(q, j, &r, &mut rng);
+                    cx.check(false, lv[i], i as u64, &Ref::R(t), q, Some(false), "word-xor-element-rejected", &mut rng);
+                    cx.check(true, lv[i], i as u64, &Ref::R(t), q, Some(false), "word-xor-element-rejected", &mut rng);
+                }
+            }
         }
         cx.rec.end_case(cx.class ^ n as u64 ^ 0xd16e << 40, true);
     }
